@@ -34,6 +34,25 @@
 (*                                       control, must violate): it answers from another  *)
 (*                                       copy of the record (memory) that is not masked   *)
 (*                                       like the store path                              *)
+(* Input dimension SHAPE of the credential VALUES (a credential is an arbitrary string the *)
+(* operator pastes): "plain" (printable, no white space), "lead_sp" / "trail_sp" (leading  *)
+(* / trailing blank), "tab_in" (a tab inside), "trail_tab", "trail_lf" (trailing tab /     *)
+(* line feed), "bad_utf8" (a byte that is not valid UTF-8).  shaped = the credential       *)
+(* fields of the request whose value has that shape (the others are plain).  Nothing in    *)
+(* the design depends on the shape: an odd credential is stored, masked and used like a    *)
+(* plain one.  What the shape changes is the OBSERVATION on the real code: a value printed *)
+(* through %q / a JSON encoder / a "safe" string encoder appears with the odd byte escaped *)
+(* and the rest verbatim, which is the credential all the same (driver secrets: the scan   *)
+(* looks for the recognisable core and the escaped renderings, not only for the raw bytes).*)
+(*   RejectQuotesValue  cdc_impl.go:637  FALSE (as built): the request validation never    *)
+(*                                       quotes a credential value; TRUE (negative         *)
+(*                                       control, must violate): a generic "this string    *)
+(*                                       cannot be stored / has odd characters" check at   *)
+(*                                       the end of validCreateRequest refuses the request *)
+(*                                       with an error that quotes the offending value -   *)
+(*                                       the error text is the answer's message and is     *)
+(*                                       logged by Create's deferred warning and by        *)
+(*                                       handleError                                       *)
 (* Fault codes: 0 none; 1..6 the k-th store call fails; 90 every store call of the step   *)
 (* fails; 95 semantically invalid request;                                                *)
 (* 96 duplicate of the existing task; 97 unreachable target; 98 credential field of the   *)
@@ -48,7 +67,9 @@ CONSTANTS Kinds,          \* subset of {"token", "userpass", "kafka", "kafka_off
           MaskOnCreateFail, MaskOnConnectFail, MaskSasl, MaskOnReloadFail, NoDecodeEcho,
           Spellings,      \* subset of {"canon", "cap", "upper", "mixed"}: how the create requests spell their keys
           MaskDecoded,    \* TRUE = as built
-          ReadFailIsError \* TRUE = as built
+          ReadFailIsError,\* TRUE = as built
+          Shapes,         \* subset of AllShapes: the shape of the credential values of the create requests
+          RejectQuotesValue \* FALSE = as built
 
 \* "kafka_off": a Kafka target whose sasl block carries user / password while enable_sasl is false (the credentials
 \* are stored and must be masked all the same)
@@ -56,18 +77,24 @@ KafkaKinds == {"kafka", "kafka_off"}
 Secret(k) == CASE k = "token" -> {"token"} [] k = "userpass" -> {"password"} [] k \in KafkaKinds -> {"sasl_pass", "sasl_user"}
 Sasl(k)   == IF k \in KafkaKinds THEN {"sasl_pass", "sasl_user"} ELSE {}
 
+AllShapes == {"plain", "lead_sp", "trail_sp", "tab_in", "trail_tab", "trail_lf", "bad_utf8"}
+
 VARIABLES task,      \* "none" | "Running" | "Paused"
           kind,      \* kind of the create request(s) of this history
           spell,     \* spelling of the keys of the create request(s) of this history
+          shape,     \* shape of the credential values of the create request(s) of this history
+          shaped,    \* the credential fields that have it (non-empty iff shape # "plain")
           logLeak,   \* observation of the last step
           respLeak,
           lastOp,
           hist
 
-vars == <<task, kind, spell, logLeak, respLeak, lastOp, hist>>
-view == <<task, kind, spell, logLeak, respLeak, lastOp, Len(hist)>>
+vars == <<task, kind, spell, shape, shaped, logLeak, respLeak, lastOp, hist>>
+view == <<task, kind, spell, shape, shaped, logLeak, respLeak, lastOp, Len(hist)>>
 
 Init == /\ task = "none" /\ kind \in Kinds /\ spell \in Spellings /\ logLeak = {} /\ respLeak = {} /\ lastOp = "none" /\ hist = <<>>
+        /\ shape \in Shapes
+        /\ shaped \in (IF shape = "plain" THEN {{}} ELSE (SUBSET Secret(kind)) \ {{}})
 
 If(c, S) == IF c THEN S ELSE {}
 
@@ -79,15 +106,22 @@ CreateLog(k, sp, f, failed) ==
          \cup If(failed /\ ~MaskOnCreateFail, Secret(k))                \* "fail to create cdc task" (cdc_impl.go:412)
          \cup If(f = 97 /\ ~MaskOnConnectFail, Secret(k))               \* "fail to connect the milvus" (cdc_impl.go:684)
 
+\* (control) the generic string check sits at the end of the request validation: after the decoding (98) and the
+\* semantic checks (95), before the connection probe (97), the duplicate check (96) and every store call.  The error
+\* quotes an offending value (at least one of shaped; the model says all of them): answer message + log
+Rejected(f) == RejectQuotesValue /\ shape # "plain" /\ f \notin {95, 98}
+Quoted(f)   == If(Rejected(f), shaped)
+
 Create(f) ==
     /\ \/ task = "none" /\ f \notin {96}
        \/ task # "none" /\ f \in {95, 96, 98}
     /\ (f = 97 => kind \notin KafkaKinds)
-    /\ \/ /\ f # 0                                  \* the fault fires: the request fails
-          /\ logLeak' = CreateLog(kind, spell, f, TRUE) /\ UNCHANGED task
+    /\ \/ /\ f # 0 \/ Rejected(f)                   \* the fault fires (or the request is refused): the request fails
+          /\ logLeak' = CreateLog(kind, spell, f, TRUE) \cup Quoted(f) /\ UNCHANGED task
        \/ /\ f \in 0..6 \cup {99} /\ task = "none"  \* no fault, or a fault position that does not exist
+          /\ ~Rejected(f)
           /\ logLeak' = CreateLog(kind, spell, f, FALSE) /\ task' = "Running"
-    /\ respLeak' = {} /\ lastOp' = "create"
+    /\ respLeak' = Quoted(f) /\ lastOp' = "create"    \* the answer of a create is not a get / list answer (NoRespLeak)
 
 \* get / list / position make one store call (the read).  GetTask masks every field of the records read; a failed read
 \* is answered with the error (as built) or (control) from an unmasked copy of the record
@@ -114,17 +148,17 @@ Restart(f) ==
 Next ==
     /\ Len(hist) < MaxOps
     /\ \/ /\ hist = <<>>
-          /\ \E f \in CreateFaults : Create(f) /\ hist' = Append(hist, [op |-> "create", kind |-> kind, spell |-> spell, fault |-> f])
+          /\ \E f \in CreateFaults : Create(f) /\ hist' = Append(hist, [op |-> "create", kind |-> kind, spell |-> spell, shape |-> shape, shaped |-> shaped, fault |-> f])
        \/ /\ hist # <<>> /\ WithDupCreate
-          /\ \E f \in {95, 96, 98} : Create(f) /\ hist' = Append(hist, [op |-> "create", kind |-> kind, spell |-> spell, fault |-> f])
+          /\ \E f \in {95, 96, 98} : Create(f) /\ hist' = Append(hist, [op |-> "create", kind |-> kind, spell |-> spell, shape |-> shape, shaped |-> shaped, fault |-> f])
        \/ /\ hist # <<>>
           /\ \/ \E op \in {"get", "list", "position"}, f \in ReadFaults :
-                  Read(op, f) /\ hist' = Append(hist, [op |-> op, kind |-> kind, spell |-> spell, fault |-> f])
-             \/ \E f \in PauseFaults : Pause(f) /\ hist' = Append(hist, [op |-> "pause", kind |-> kind, spell |-> spell, fault |-> f])
-             \/ \E f \in ResumeFaults : Resume(f) /\ hist' = Append(hist, [op |-> "resume", kind |-> kind, spell |-> spell, fault |-> f])
-             \/ \E f \in DeleteFaults : Delete(f) /\ hist' = Append(hist, [op |-> "delete", kind |-> kind, spell |-> spell, fault |-> f])
-             \/ \E f \in RestartFaults : Restart(f) /\ hist' = Append(hist, [op |-> "restart", kind |-> kind, spell |-> spell, fault |-> f])
-       /\ UNCHANGED <<kind, spell>>
+                  Read(op, f) /\ hist' = Append(hist, [op |-> op, kind |-> kind, spell |-> spell, shape |-> shape, shaped |-> shaped, fault |-> f])
+             \/ \E f \in PauseFaults : Pause(f) /\ hist' = Append(hist, [op |-> "pause", kind |-> kind, spell |-> spell, shape |-> shape, shaped |-> shaped, fault |-> f])
+             \/ \E f \in ResumeFaults : Resume(f) /\ hist' = Append(hist, [op |-> "resume", kind |-> kind, spell |-> spell, shape |-> shape, shaped |-> shaped, fault |-> f])
+             \/ \E f \in DeleteFaults : Delete(f) /\ hist' = Append(hist, [op |-> "delete", kind |-> kind, spell |-> spell, shape |-> shape, shaped |-> shaped, fault |-> f])
+             \/ \E f \in RestartFaults : Restart(f) /\ hist' = Append(hist, [op |-> "restart", kind |-> kind, spell |-> spell, shape |-> shape, shaped |-> shaped, fault |-> f])
+       /\ UNCHANGED <<kind, spell, shape, shaped>>
 
 Spec == Init /\ [][Next]_vars
 
@@ -133,7 +167,8 @@ NoLogLeak  == logLeak = {}
 NoRespLeak == lastOp \in {"get", "list"} => respLeak = {}
 Contract == NoLogLeak /\ NoRespLeak
 
-TypeOK == task \in {"none", "Running", "Paused"} /\ spell \in Spellings /\ logLeak \subseteq {"token", "password", "sasl_pass", "sasl_user"}
+TypeOK == task \in {"none", "Running", "Paused"} /\ spell \in Spellings /\ shape \in Shapes /\ Shapes \subseteq AllShapes
+          /\ shaped \subseteq Secret(kind) /\ (shaped = {} <=> shape = "plain") /\ logLeak \subseteq {"token", "password", "sasl_pass", "sasl_user"}
 
 PlanOut == Len(hist) = MaxOps => PrintT("PLAN " \o ToJson(hist))
 =============================================================================
